@@ -1,7 +1,8 @@
 #!/usr/bin/env python3
 """tools/mutantrun.py M01:C01,C02 M05:C07 ...  -> apply mutants/<id>.diff to /repo, run the listed quick checks, undo; results in mutants/RESULTS.json"""
-import json, subprocess, sys, time
+import json, os, subprocess, sys, time
 from pathlib import Path
+REPO = os.environ.get("VERIF_REPO", "/repo")  # a snapshot for background runs (vp run --with-repo), else /repo itself
 V = Path(__file__).resolve().parent.parent
 res_file = V / "mutants" / "RESULTS.json"
 res = json.loads(res_file.read_text()) if res_file.exists() else {}
@@ -10,9 +11,9 @@ def sh(c, cwd=None):
     return r.returncode, r.stdout + r.stderr
 for arg in sys.argv[1:]:
     mid, checks = arg.split(":")
-    rc, out = sh("git status --porcelain --untracked-files=no", "/repo")
+    rc, out = sh("git status --porcelain --untracked-files=no", REPO)
     assert not out.strip(), "/repo dirty"
-    rc, out = sh(f"git apply {V}/mutants/{mid}.diff", "/repo")
+    rc, out = sh(f"git apply {V}/mutants/{mid}.diff", REPO)
     if rc != 0:
         print(mid, "does not apply", out); continue
     try:
@@ -25,6 +26,6 @@ for arg in sys.argv[1:]:
             if rc not in (0, 1):
                 print(out[-800:])
     finally:
-        sh("git checkout -- .", "/repo")
+        sh("git checkout -- .", REPO)
     res_file.write_text(json.dumps(res, indent=1, sort_keys=True) + "\n")
 sh("rm -rf replays/*", V)
